@@ -159,6 +159,9 @@ func (s *Scenario) stepC20(pre *ksim.World, op ksim.Op, r ksim.Result, post *ksi
 	for _, i := range pe.stored() {
 		v := pe.Cons[i]
 		got := s.storedCons(post, i)
+		if before := s.storedCons(pre, i); before == nil || !bytes.Equal(before, s.consBytes(pre, i, v)) {
+			continue // already changed by an earlier step, which was blamed then
+		}
 		if got == nil {
 			if !s.expired(pe, i, nowNs) {
 				return &ksim.Fail{Key: "removed-unexpired/" + op.K, Text: fmt.Sprintf("%s removed the consensus state of block %s at height %s although it expires only at %d (now %d)", opName(op), s.blk(i, v), s.VC.H(i), s.VC.Block(i, v).TimeNs+pe.Trusting, nowNs)}
